@@ -82,19 +82,18 @@ Proof. exact undisciplined_refuted. Qed.
     write traits (WalletWrite, OutputLockStore, WalletCommitmentTrees: enumerated from the trait
     definitions, cfg-gated methods included; a method the connection-owning impl does not
     override is judged on the trait's default body) and every store write has one of the accepted
-    transaction shapes — except the one visible known finding [known_nonatomic]. *)
+    transaction shapes. *)
 Theorem C02_all_methods_bracketed :
-  forallb (fun p => atomic_shape (snd p) || known_nonatomic (fst p)) shapes = true.
+  forallb (fun p => atomic_shape (snd p)) shapes = true.
 Proof. exact all_methods_bracketed. Qed.
 
-(** The known finding: remove_retained_checkpoints_below on a connection-owning WalletDb runs the
-    trait default, one transaction per pool; the observed trace (two commits) is rejected by the
-    checker and a crash between the commits leaves a third state in the reference semantics. *)
-Theorem C02_remove_retained_not_atomic_refuted :
-  lookup_shape "WalletCommitmentTrees::remove_retained_checkpoints_below" shapes = Some Other /\
+(** Regression example (fixed in /repo): a call that commits once per pool, as
+    remove_retained_checkpoints_below did through the trait default on a connection-owning
+    wallet, is rejected by the checker and loses atomicity in the reference semantics. *)
+Theorem C02_per_pool_commits_refuted :
   exists t p r, disciplined t = false /\ t = p ++ r /\
     durable (log_sem (p ++ [Crash])) = [126] /\ durable (log_sem t) = [126; 98].
-Proof. exact remove_retained_not_atomic_refuted. Qed.
+Proof. exact per_pool_commits_refuted. Qed.
 
 (** Static obligation over the regenerated list of places, in the non-test code of the wallet
     backend (lib.rs, wallet.rs, wallet/*.rs, pool_migration/*.rs), where the Result of an
